@@ -799,6 +799,9 @@ func ParseContractText(text, path, pkg string, assumed bool) (*ContractFile, err
 			case "loop":
 				// loop N invariant E | loop N decreases E
 				toks := strings.SplitN(rest, " ", 3)
+				if len(toks) == 2 && toks[1] == "modifies" {
+					toks = append(toks, "")
+				}
 				if len(toks) < 3 {
 					return nil, fail(fmt.Errorf("loop N invariant|decreases expr"))
 				}
